@@ -36,7 +36,9 @@ TITLE = "Adaptive discretisation / VOGP_AD set surgery vs Lean model"
 RULE = ("space: (d in 1..3, max depth <= 6, op sequence of direct/guarded refinements of random leaves and "
         "region updates); run: (problem [BraninCurrin | dyadic quadratic, in_dim 1..3], model kind, cone, eps, "
         "contraction, depth_max, seed) observed after every run_one_step up to a round cap; phase: (tree, S, P, "
-        "latch, alg max depth, one phase with scripted geometry verdicts). Non-trivial = at least two "
+        "latch, alg max depth, one phase with scripted geometry verdicts), including a structured 'gate' family: "
+        "reachable states with depth_max 4/5 where only the oldest / newest / a majority / min+max index / one "
+        "member of S is at maximum depth and nothing is covered. Non-trivial = at least two "
         "refinements happened (space/run) or the phase changed S, P, the latch or the tree; distinct by the "
         "whole case dict")
 ASSUMPTIONS = [
@@ -410,6 +412,81 @@ def _gen_phase(ctx, rng, big):
     return case
 
 
+GATE_VARIANTS = ["oldest-at-max", "newest-at-max", "majority-at-max", "minmax-at-max", "one-at-max"]
+
+
+def _gen_gate(ctx, rng, variant=None):
+    """Reachable VOGP_AD states (depth_max 4 or 5) in which SOME but not all members of S are at the
+    maximum depth — the oldest / the newest / a majority / the smallest and largest index / a single one —
+    and the geometry says "nobody is covered": any ε-covering gate weaker than "ALL of S at maximum depth"
+    opens the latch and declares a shallow design (checked as (R) `P-not-max-depth` on the real state)."""
+    variant = variant or rng.choice(GATE_VARIANTS)
+    d = rng.choice([1, 2, 2])
+    dmax = rng.choice([4, 5])
+    depths, leaves, refs = [1], [0], []
+
+    def refine(i):
+        refs.append(i)
+        leaves.remove(i)
+        kids = list(range(len(depths), len(depths) + 2 ** d))
+        for k in kids:
+            leaves.append(k)
+            depths.append(depths[i] + 1)
+        return kids
+
+    def chain(start):
+        """refine `start` and then one child of each new generation down to the maximum depth"""
+        i = start
+        while depths[i] < dmax:
+            i = rng.choice(refine(i))
+
+    def shallow(n):
+        """refine up to n leaves whose children stay strictly above the finest level"""
+        for _ in range(n):
+            cand = [j for j in leaves if depths[j] <= dmax - 2]
+            if not cand:
+                return
+            refine(rng.choice(cand))
+
+    if variant in ("oldest-at-max", "majority-at-max", "one-at-max"):
+        chain(0)
+        shallow(rng.randint(1, 3))
+    elif variant == "newest-at-max":
+        refine(0)
+        shallow(rng.randint(1, 2))
+        chain(rng.choice([j for j in leaves if depths[j] <= dmax - 1]))
+    else:  # minmax-at-max
+        chain(0)
+        shallow(rng.randint(1, 2))
+        cand = [j for j in leaves if depths[j] <= dmax - 1]
+        chain(max(cand))
+    fine = sorted(j for j in leaves if depths[j] == dmax)
+    coarse = sorted(j for j in leaves if depths[j] < dmax)
+    if variant == "oldest-at-max":
+        lo = fine[0]
+        S = [lo] + [j for j in fine[1:] if rng.random() < 0.5] + \
+            ([j for j in coarse if j > lo and rng.random() < 0.7] or [max(coarse)])
+        S = [j for j in S if j >= lo]
+        if not any(depths[j] < dmax for j in S):
+            S.append(max(j for j in coarse))
+        S = [j for j in S if j >= lo] if max(coarse) > lo else S
+    elif variant == "newest-at-max":
+        hi = fine[-1]
+        S = [hi] + [j for j in fine[:-1] if rng.random() < 0.5] + \
+            ([j for j in coarse if j < hi and rng.random() < 0.7] or [min(coarse)])
+    elif variant == "majority-at-max":
+        S = list(fine) + [rng.choice(coarse)]
+    elif variant == "one-at-max":
+        S = [rng.choice(fine)] + [j for j in coarse if rng.random() < 0.8] + [rng.choice(coarse)]
+    else:
+        S = [fine[0], fine[-1]] + [j for j in coarse if fine[0] < j < fine[-1] and rng.random() < 0.8]
+        mid = [j for j in coarse if fine[0] < j < fine[-1]]
+        S.append(rng.choice(mid) if mid else rng.choice(coarse))
+    S = sorted(set(S))
+    return {"kind": "phase", "d": d, "m": 2, "ds_max_depth": dmax, "refs": refs, "S": S, "P": [],
+            "latch": 0, "alg_max_depth": dmax, "phase": "cover", "N": list(S), "variant": "gate:" + variant}
+
+
 def gen(ctx):
     rng = ctx.rng
     big = ctx.tier == "thorough"
@@ -434,6 +511,10 @@ def gen(ctx):
                                 leaves.append(len(depths))
                                 depths.append(depths[i] + 1)
                         yield {"kind": "space", "d": d, "m": 2, "max_depth": md, "ops": ops, "shape": "exhaustive"}
+    # structured: partially-finest active sets against the ε-covering gate
+    n_gate = ctx.n(40, 1500)
+    for j in range(n_gate):
+        yield _gen_gate(ctx, rng, GATE_VARIANTS[j % len(GATE_VARIANTS)])
     n_space, n_run, n_phase = ctx.n(220, 10000), ctx.n(14, 420), ctx.n(160, 6000)
     for j in range(max(n_space, n_run, n_phase)):
         if j < n_space:
@@ -815,6 +896,8 @@ def _run_phase(ctx, case):
     d, m = case["d"], case["m"]
     phase = case["phase"]
     ctx.count("phase_" + phase)
+    if "variant" in case:
+        ctx.count("phase_" + case["variant"])
     spec = {"name": "quad", "noise_var": 0.01, "depth_max": case["ds_max_depth"],
             "A": [[1.0] * d for _ in range(m)], "T": [[0.5] * d for _ in range(m)], "C": [0.0] * m}
     mspec = {"kind": "stub", "s0": 1.0, "decay": 0.5, "ls": 0.5, "var": 1.0}
